@@ -49,7 +49,10 @@ theorem OG.pushNext (R : RHyp E rank Good) {fuel : Nat} {s s' : St U π} {emE : 
     (bound : π) (hbound : ∀ x, x ∈ emE → E.ops.lt bound x.1 = false)
     (hkb : ∀ k w pr, p = some k → startW E nt = some w → HasPrio E k nt pr → bound = E.ops.adjust pr w)
     (hp : pushNext E fuel s nt p = some s') :
-    OG E rank s' emE ∧ (∀ e, e ∈ s'.startHeap → e ∈ s.startHeap ∨ (e.2.2 = nt ∧ (p = none ∨ E.ops.lt e.1 bound = false))) := by
+    OG E rank s' emE ∧ (∀ e, e ∈ s'.startHeap → e ∈ s.startHeap ∨ (e.2.2 = nt ∧ (p = none ∨ E.ops.lt e.1 bound = false))) ∧
+    (∀ sj, Kept s s' sj) ∧ (∀ e, e ∈ s.startHeap → e ∈ s'.startHeap) ∧
+    (nt ∈ s'.startHeap.map (·.2.2) ∨
+      (s'.initS.contains nt = true ∧ s'.heapOf nt = [] ∧ AList.lookup p (s'.succOf nt) = none)) := by
   have H := R.ohyp
   have hk := H.ghyp.kway
   obtain ⟨g', hsub⟩ := h.ginv.pushNext R.nhyp hnt hkey hp
@@ -66,10 +69,12 @@ theorem OG.pushNext (R : RHyp E rank Good) {fuel : Nat} {s s' : St U π} {emE : 
     simp only [Option.some.injEq] at hp; subst hp
     have hb := big_of_query E hq
     obtain ⟨hbase1, hst1, hfr1, _, _, hkept1⟩ := big_all H hb h.base trivial trivial
-    obtain ⟨a1, a2, _, _⟩ := big_order H hb h.base trivial trivial (hopre s rfl)
+    obtain ⟨a1, a2, _, a5⟩ := big_order H hb h.base trivial trivial (hopre s rfl)
     have hfr1' : Frame rank (rank nt) (some nt) s s1 := hfr1
     have hsh := big_startHeap E hk hb
-    refine ⟨⟨hbase1, g', ?_, ?_, h.sorted, hsh ▸ h.sheap, h.em_key⟩, fun e he => Or.inl (hsh ▸ he)⟩
+    refine ⟨⟨hbase1, g', ?_, ?_, h.sorted, hsh ▸ h.sheap, h.em_key⟩, fun e he => Or.inl (hsh ▸ he),
+      fun sj => hkept1 sj (by simp [Call.inner]), fun e he => by rw [hsh]; exact he,
+      Or.inr ⟨by simpa using query_initS E hk hb, (a5 rfl).1, (a5 rfl).2⟩⟩
     · intro nt'
       exact (Below.merge (r := rank nt' + 1) (h.all.below _) hfr1' hst1 (fun sj => hkept1 sj (by simp [Call.inner])) a1 a2)
         nt' (Nat.lt_succ_self _)
@@ -116,7 +121,9 @@ theorem OG.pushNext (R : RHyp E rank Good) {fuel : Nat} {s s' : St U π} {emE : 
         exact ⟨rfl, rfl, rfl, rfl, rfl, fun _ => rfl, fun _ _ => rfl⟩
       have hst2 : Stable s1 { s2 with startHeap := Heapq.push (ltS E.ops) s2.startHeap (E.ops.adjust pr w, q, nt) } :=
         Stable.of_succOf (fun nt' => (hsame2 nt').succ)
-      refine ⟨⟨hbase2, g', hall1.same hsame2 hst2, ?_, h.sorted, ?_, h.em_key⟩, ?_⟩
+      have hkept2 : ∀ sj, Kept s { s2 with startHeap := Heapq.push (ltS E.ops) s2.startHeap (E.ops.adjust pr w, q, nt) } sj :=
+        fun sj => (hkept1 sj (by simp [Call.inner])).trans (Kept.of_same (hsame2 sj))
+      refine ⟨⟨hbase2, g', hall1.same hsame2 hst2, ?_, h.sorted, ?_, h.em_key⟩, ?_, hkept2, ?_, ?_⟩
       · intro e he x hx
         rcases hmem e he with rfl | hm
         · rcases hnew with hn | hn
@@ -131,6 +138,10 @@ theorem OG.pushNext (R : RHyp E rank Good) {fuel : Nat} {s s' : St U π} {emE : 
         rcases hmem e he with rfl | hm
         · exact Or.inr ⟨rfl, hnew⟩
         · exact Or.inl hm
+      · intro e he
+        exact hperm.symm.subset (List.mem_cons_of_mem _ (hsh2 ▸ he))
+      · left
+        exact List.mem_map.mpr ⟨(E.ops.adjust pr w, q, nt), hperm.symm.subset List.mem_cons_self, rfl⟩
     · simp at hp
 
 /-- taking the root of the start heap -/
@@ -193,7 +204,7 @@ theorem OG.pushNexts (R : RHyp E rank Good) {fuel : Nat} : ∀ (l : List (UNT U)
     split at hp
     · simp at hp
     · rename_i s1 h1
-      obtain ⟨g1, hsub⟩ := h.pushNext R (fun hm => hdisj nt hm List.mem_cons_self) (by simp [doneR])
+      obtain ⟨g1, hsub, _, _, _⟩ := h.pushNext R (fun hm => hdisj nt hm List.mem_cons_self) (by simp [doneR])
         (by intro k hk; cases hk) (fun _ => rfl) (E.ops.ofRule 0) (by intro x hx; cases hx)
         (by intro k w pr hk; cases hk) h1
       refine OG.pushNexts R rest g1 (List.nodup_cons.mp hnd).2 ?_ hp
@@ -236,7 +247,7 @@ theorem OG.kwayLoop (R : RHyp E rank Good) {fuel : Nat} : ∀ (k : Nat) {s s' : 
       split at hp
       · simp at hp
       · rename_i s1 hpn
-        obtain ⟨g1, _⟩ := h0.pushNext R hnt0 (by simp [doneR_cons_self]) (by intro k hk; cases hk; exact hpq)
+        obtain ⟨g1, _, _, _, _⟩ := h0.pushNext R hnt0 (by simp [doneR_cons_self]) (by intro k hk; cases hk; exact hpq)
           (by intro hk; cases hk) pa
           (by
             intro x hx
